@@ -30,6 +30,8 @@ structure CState where
   files : List ((Str × Str) × CFile) := []
   now : Int := 0
   counter : Nat := 0          -- number of real invocations so far
+  /-- paths that can neither be read nor replaced (a directory, a symbolic link onto itself) -/
+  blocked : List (Str × Str) := []
   deriving Repr, Inhabited
 
 inductive COp where
@@ -38,6 +40,8 @@ inductive COp where
   | invoke (site : Str) (kb ka : Keys) (timeout : Int) (msg : Bool)
   | advance (dt : Nat)
   | corrupt (site : Str) (ks : Keys)
+  /-- the entry's path is replaced by something `ReadFile` and `WriteFile` both fail on -/
+  | block (site : Str) (ks : Keys)
   deriving Repr, Inhabited
 
 def lookupF {α β} [DecidableEq α] (l : List (α × β)) (k : α) : Option β :=
@@ -49,6 +53,8 @@ def updateF {α β} [DecidableEq α] (l : List (α × β)) (k : α) (v : β) : L
   match l with
   | [] => [(k, v)]
   | (k', v') :: r => if k' = k then (k, v) :: r else (k', v') :: updateF r k v
+
+def eraseF {α β} [DecidableEq α] (l : List (α × β)) (k : α) : List (α × β) := l.filter (fun p => p.1 ≠ k)
 
 /-- output of an invocation: which real invocation's result is returned, and whether a real
     invocation happened now -/
@@ -69,12 +75,16 @@ def cacheStep (s : CState) : COp → CState × COut
       let s' := { s with counter := r }
       -- results that carry messages are not stored; the file name is computed again after the invocation
       if msg then (s', some (r, true))
+      -- `WriteE` fails on a blocked path (the error is dropped): nothing is stored
+      else if cachePath site ka ∈ s.blocked then (s', some (r, true))
       else ({ s' with files := updateF s'.files (cachePath site ka) { content := some r, mtime := s.now } }, some (r, true))
   | .advance dt => ({ s with now := s.now + dt }, none)
   | .corrupt site ks =>
     match lookupF s.files (cachePath site ks) with
     | none => (s, none)
     | some f => ({ s with files := updateF s.files (cachePath site ks) { f with content := none } }, none)
+  | .block site ks =>
+    ({ s with files := eraseF s.files (cachePath site ks), blocked := cachePath site ks :: s.blocked }, none)
 
 /-! ### the abstract store -/
 
@@ -87,9 +97,9 @@ structure SState where
   store : List ((Str × Keys) × SEntry) := []
   now : Int := 0
   counter : Nat := 0
+  /-- entries that cannot be stored (their file can be neither read nor replaced) -/
+  blocked : List (Str × Keys) := []
   deriving Repr, Inhabited
-
-def eraseF {α β} [DecidableEq α] (l : List (α × β)) (k : α) : List (α × β) := l.filter (fun p => p.1 ≠ k)
 
 /-- a usable entry: present and not older than the timeout (never expires for a negative timeout) -/
 def storeHit (s : SState) (site : Str) (kb : Keys) (timeout : Int) : Option Nat :=
@@ -105,9 +115,11 @@ def storeStep (s : SState) : COp → SState × COut
       let r := s.counter + 1
       let s' := { s with counter := r }
       if msg then (s', some (r, true))
+      else if (site, ka) ∈ s.blocked then (s', some (r, true))
       else ({ s' with store := updateF s'.store (site, ka) { result := r, time := s.now } }, some (r, true))
   | .advance dt => ({ s with now := s.now + dt }, none)
   | .corrupt site ks => ({ s with store := eraseF s.store (site, ks) }, none)
+  | .block site ks => ({ s with store := eraseF s.store (site, ks), blocked := (site, ks) :: s.blocked }, none)
 
 def runCache (ops : List COp) : List COut :=
   (ops.foldl (fun (acc : CState × List COut) op => let (s', o) := cacheStep acc.1 op; (s', acc.2 ++ [o])) ({}, [])).2
